@@ -69,8 +69,16 @@ func chunkEncode(r *Rand, body []byte, weird int) []byte {
 			out = append(out, " ;ext"...)
 		case 5:
 			out = append(out, " "...)
+		case 12:
+			out = append(out, ";x\nGET /hidden HTTP/1.1"...) // a bare LF inside a chunk extension
+		case 14:
+			out = append(out, ";a=\"b\r\nc\""...) // CRLF inside a quoted extension value
+		case 15:
+			out = append(out, ";x\ry"...) // bare CR inside an extension
+		case 16:
+			out = append(out, ";\tx = y ; z"...)
 		}
-		if weird == 6 {
+		if weird == 6 || weird == 17 {
 			out = append(out, "\n"...)
 		} else {
 			out = append(out, "\r\n"...)
@@ -92,6 +100,10 @@ func chunkEncode(r *Rand, body []byte, weird int) []byte {
 		out = append(out, "00\r\n\r\n"...)
 	case 11:
 		out = append(out, "0;x\r\n\r\n"...)
+	case 13:
+		out = append(out, "0;x\n\r\n\r\n"...) // bare LF inside the last chunk's extension
+	case 17:
+		out = append(out, "0;x\n\n"...)
 	default:
 		out = append(out, "0\r\n\r\n"...)
 	}
@@ -158,7 +170,7 @@ func genMessage(r *Rand, id int) []byte {
 		cl(r.Pick([]string{"+" + n, " " + n, n + " ", "0" + n, n + ", " + n, "0x" + n, "", "-1", n + "a", "1" + strings.Repeat("0", 19), "18446744073709551616", n + "\t"}))
 	case k < 20:
 		te("chunked")
-		wire = chunkEncode(r, body, r.Intn(14))
+		wire = chunkEncode(r, body, r.Intn(20))
 	case k == 20:
 		te(r.Pick([]string{"Chunked", "CHUNKED", "chunked ", " chunked"}))
 		wire = chunkEncode(r, body, 0)
